@@ -193,6 +193,8 @@ def oracle_basis(case):
     Vp = cell_vprim(cell)
     box = am.Box(vects=Vp)
     labels = {cell['family'], 'setting_' + setting}
+    if setting != 'p':
+        labels.add('centred')
     if cell.get('rot'):
         labels.add('rigid_rot')
     mode = case.get('hex', '3')
@@ -286,13 +288,13 @@ def enum_basis(tier):
             for fam in FAMILIES:
                 cell = {'family': fam, 'abc': table[fam], 'setting': 'p', 'rot': rot if table is GENERIC2 and fam == 'triclinic' else None}
                 mode = '4' if fam == 'hexagonal' and table is GENERIC else '3'
-                for blk in _blocks(P, 2):
+                for blk in _blocks(P if table is GENERIC else all_planes(3), 2):
                     cases.append({'cell': cell, 'planes': blk, 'cuts': 'abc', 'hex': mode})
         P3 = all_planes(3)
         for j, (fam, s) in enumerate(CENTRED):
             cell = {'family': fam, 'abc': GENERIC[fam], 'setting': s, 'rot': None}
             for bi, blk in enumerate(_blocks(P3, 3)):
-                cases.append({'cell': cell, 'planes': blk, 'cuts': 'abc', 'hex': '3'})
+                cases.append({'cell': cell, 'planes': blk, 'cuts': 'cab'[bi % 3], 'hex': '3'})
         hexc = {'family': 'hexagonal', 'abc': GENERIC2['hexagonal'], 'setting': 'p', 'rot': None}
         for mode in ('3to4', '4to3'):
             for bi, blk in enumerate(_blocks(P3, 3)):
@@ -363,12 +365,789 @@ def oracle_basis_random(case):
     return oracle_basis(case)
 
 
+
+# ----------------------------------------------------------------------------- unit cells for surface / fault
+
+SPECIAL = (0.0, 0.0, 0.5, 0.25, 0.75, 1.0 / 3.0, 2.0 / 3.0, 0.125)
+_coordsel = st.integers(0, 15)
+_generic = st.integers(0, 998)
+_natoms = st.sampled_from([1, 1, 2, 2, 3, 3, 4])
+_bool = st.booleans()
+
+
+def _torus_sep(a, b):
+    d = np.asarray(a, dtype=float) - np.asarray(b, dtype=float)
+    return float(np.abs(d - np.rint(d)).max())
+
+
+@st.composite
+def ucells(draw, centred_share=4):
+    cell = draw(cells(centred_share=centred_share))
+    n = draw(_natoms)
+    atoms = []
+    for _ in range(n):
+        a = []
+        for _ in range(3):
+            k = draw(_coordsel)
+            a.append(SPECIAL[k] if k < len(SPECIAL) else draw(_generic) / 1000.0 + 0.00037)
+        if all(_torus_sep(a, b) >= 0.04 for b in atoms):
+            atoms.append(a)
+    if not atoms:
+        atoms = [[0.0, 0.0, 0.0]]
+    types = [1] + [1 + (draw(_int10) % 2) for _ in atoms[1:]]
+    return {'cell': cell, 'atoms': atoms, 'types': types}
+
+
+def build_ucell(am, u):
+    Vp = cell_vprim(u['cell'])
+    s = np.array(u['atoms'], dtype=float).reshape(-1, 3)
+    pos = s @ Vp
+    system = am.System(atoms=am.Atoms(atype=np.array(u['types'], dtype=int), pos=pos.copy()),
+                       box=am.Box(vects=Vp.copy()))
+    return system, Vp, pos
+
+
+AXIS_PLANES = {
+    'tetragonal': lambda d: d.draw(st.sampled_from([[1, 0, 0], [0, 1, 0], [0, 0, 1], [1, 1, 0], [1, -1, 0], [2, 1, 0], [1, 2, 0],
+                                                    [0, 0, -1], [-1, 1, 0], [3, 1, 0]])),
+    'orthorhombic': lambda d: d.draw(st.sampled_from([[1, 0, 0], [0, 1, 0], [0, 0, 1], [-1, 0, 0], [0, 2, 0], [0, 0, -1]])),
+    'hexagonal': lambda d: d.draw(st.sampled_from([[0, 0, 1], [1, 1, 0], [0, 0, -1], [1, -2, 0], [-2, 1, 0], [1, 0, 0], [2, 1, 0]])),
+    'monoclinic': lambda d: d.draw(st.sampled_from([[0, 1, 0], [0, -1, 0], [0, 2, 0]])),
+}
+
+
+class _D:
+    def __init__(self, draw):
+        self.draw = draw
+
+
+@st.composite
+def plane_cut(draw, cell):
+    fam, setting = cell['family'], cell['setting']
+    cut = 'c' if draw(_int10) < 5 else draw(st.sampled_from(['a', 'b']))
+    oblique = fam in ('monoclinic', 'triclinic', 'rhombohedral')
+    if cut != 'c' and (fam in ('triclinic', 'rhombohedral') or setting in ('t1', 't2')) and draw(_int10) < 8:
+        cut = 'c'
+    if cut != 'c' and setting == 'p' and fam in AXIS_PLANES and draw(_int10) < 8:
+        hkl = AXIS_PLANES[fam](_D(draw))
+    else:
+        hkl = _plane(draw, _idx2 if (oblique or draw(_int10) < 5) else _idx3)
+    if fam == 'hexagonal' and setting == 'p' and draw(_int10) < 5:
+        hkl = [hkl[0], hkl[1], -(hkl[0] + hkl[1]), hkl[2]]
+    return hkl, cut
+
+
+_mult_in = st.sampled_from([1, 1, 2, 2, 3, -1, -2, [0, 2], [-1, 1], [-1, 2], [0, 1], [-2, 0]])
+_mult_cut = st.sampled_from([1, 1, 2, 2, 3, 3, 4, 5, -1, -2, -3])
+_width = st.integers(0, 4000).map(lambda k: round(1.0 + k / 100.0, 2))
+_vac = st.sampled_from([0.0, 5.0, 10.0, 7.25, 0.5, 12.345, 3.3])
+
+
+@st.composite
+def surface_cases(draw):
+    u = draw(ucells())
+    hkl, cut = draw(plane_cut(u['cell']))
+    ci = CUTIDX[cut]
+    mults = [draw(_mult_in) for _ in range(3)]
+    mults[ci] = draw(_mult_cut)
+    case = {'ucell': u, 'hkl': hkl, 'cut': cut,
+            'sizemults': mults if draw(_int10) < 8 else None,
+            'minwidth': draw(_width) if draw(_int10) < 4 else None,
+            'even': draw(_int10) < 3,
+            'vacuum': draw(_vac) if draw(_int10) < 5 else None,
+            'shiftsel': draw(st.integers(0, 1000)),
+            'shiftmode': draw(st.sampled_from(['index', 'index', 'index', 'vector', 'scaled', 'init']))}
+    return case
+
+
+# ----------------------------------------------------------------------------- surface oracle helpers
+
+def rows_from_uvws(uvws, setting, what):
+    """FreeSurface.uvws (conventional indices, possibly half/third integers, or 3x4) -> integer rows relative to the
+    cell handed to atomman"""
+    uvws = np.asarray(uvws, dtype=float)
+    if uvws.shape == (3, 4):
+        r = sr.hex_vector4to3_times3(uvws) / 3.0
+    else:
+        require(uvws.shape == (3, 3), lambda: '%s: uvws has shape %r' % (what, uvws.shape))
+        r = uvws @ np.array(sr.conv_to_prim_matrix(setting), dtype=float)
+    ri = np.rint(r)
+    require(np.abs(r - ri).max() <= 1e-9, lambda: '%s: uvws %r are not lattice vectors of the given cell' % (what, uvws.tolist()))
+    return [[int(x) for x in row] for row in ri]
+
+
+def mult_span(m):
+    """(lo, count) of a supersize multiplier"""
+    if isinstance(m, (list, tuple)):
+        return int(m[0]), int(m[1]) - int(m[0])
+    m = int(m)
+    return (m, -m) if m < 0 else (0, m)
+
+
+def mult_arg(m):
+    return (int(m[0]), int(m[1])) if isinstance(m, (list, tuple)) else int(m)
+
+
+def expected_cut_mult(m, minwidth, even, rw):
+    """allowed final |multiplier| values along the cut (a set: two values when minwidth/rw is within rounding of an integer)"""
+    m = abs(int(m))
+    opts = {m}
+    if minwidth is not None:
+        x = minwidth / rw
+        c = int(math.ceil(x))
+        cands = {c}
+        if abs(x - round(x)) < 1e-9:
+            cands = {int(round(x)), int(round(x)) + 1}
+        opts = {max(m, c2) for c2 in cands}
+    if even:
+        opts = {o + 1 if o % 2 == 1 else o for o in opts}
+    return opts
+
+
+def gap_at(L, p, c0):
+    below = L[L <= c0]
+    above = L[L > c0]
+    lo = below[-1] if len(below) else L[-1] - p
+    hi = above[0] if len(above) else L[0] + p
+    return float(lo), float(hi)
+
+
+class Geometry:
+    """everything my side knows about the oriented cell, from the integer rows and the unit cell numbers"""
+
+    def __init__(self, u, hkl, cut, rows):
+        cell = u['cell']
+        self.setting = cell['setting']
+        self.h3 = plane3(hkl)
+        self.ci = CUTIDX[cut]
+        self.inpl = [i for i in range(3) if i != self.ci]
+        self.Vp = cell_vprim(cell)
+        self.rows = rows
+        self.W = np.array(rows, dtype=float) @ self.Vp
+        self.T = sr.lammps_frame(self.W)
+        self.B0 = self.W @ self.T.T
+        self.g = sr.plane_g(self.h3, self.Vp, self.setting)
+        self.gn = float(np.linalg.norm(self.g))
+        self.z = sr.zone_numerators(self.h3, rows, self.setting)
+        self.den = sr.DEN[self.setting]
+        self.gq = sr.lattice_period_numerator(self.h3, self.setting)
+        self.period = self.gq / (self.den * self.gn)
+        self.rw = self.z[self.ci] / (self.den * self.gn)          # width of the oriented cell along the normal
+        self.det = sr.idet(rows)
+        self.L = float(np.abs(self.W).max())
+        pos = np.array(u['atoms'], dtype=float).reshape(-1, 3) @ self.Vp
+        self.upos = pos
+        self.heights = pos @ (self.g / self.gn)
+        self.layers, self.ambiguous = sr.distinct_layers(self.heights, self.period, 1e-9, 1e-4)
+
+    def perp_cos(self):
+        c = self.W[self.ci]
+        return max(abs(float(np.dot(c, self.W[i]))) / (np.linalg.norm(c) * np.linalg.norm(self.W[i])) for i in self.inpl)
+
+
+def judge_rows(geo, what):
+    z, ci = geo.z, geo.ci
+    for i in geo.inpl:
+        require(z[i] == 0, lambda: '%s: box vector %d %r does not lie in the plane (h u + k v + l w = %s/%d)' % (what, i, geo.rows[i], z[i], geo.den))
+    require(z[ci] > 0, lambda: '%s: the cut vector %r does not leave the plane on the normal side (h u + k v + l w = %s/%d)'
+            % (what, geo.rows[ci], z[ci], geo.den))
+    require(geo.det > 0, lambda: '%s: rows %r are not right-handed / independent (det %d)' % (what, geo.rows, geo.det))
+
+
+def construct(am, cls, case, u, ucell, labels, **extra):
+    """FreeSurface / StackingFault constructor with the documented refusals sorted out.
+    returns the object, or None after adding a refusal label"""
+    hkl, cut = case['hkl'], case['cut']
+    setting = u['cell']['setting']
+    what = '%s(%r, %s(%s) cell %r, cutboxvector=%r)' % (cls.__name__, hkl, u['cell']['family'], setting, u['cell']['abc'], cut)
+    kw = dict(cutboxvector=cut, conventional_setting=setting)
+    kw.update(extra)
+    try:
+        return cls(hkl, ucell, **kw), what
+    except AssertionError as e:
+        if _is_refusal(e):
+            labels.add('refusal_search')
+            return None, what
+        raise
+    except ValueError as e:
+        msg = str(e)
+        if 'Filtering failed' in msg:
+            labels.add('c04_filtering_skip')        # System.rotate's own open findings (C04), not this property
+            return None, what
+        if 'cannot have' in msg and 'component for cutboxvector' in msg or 'New box has no atoms/volume' in msg:
+            box = am.Box(vects=cell_vprim(u['cell']))
+            try:
+                out = call_basis(am, hkl, box, cut, setting, None)
+            except AssertionError as e2:
+                if _is_refusal(e2):
+                    labels.add('refusal_search')
+                    return None, what
+                raise
+            status, rows = judge_basis(out, hkl, cell_vprim(u['cell']), setting, cut, len(hkl) == 4, what)
+            if status == 'parallel':
+                raise Violation('%s raised ValueError(%s): free_surface_basis returned two parallel in-plane rows %r'
+                                % (what, msg, rows), key=K_PARALLEL)
+            require('cannot have' in msg, lambda: '%s raised ValueError(%s) for independent rows %r' % (what, msg, rows))
+            geo = Geometry(u, hkl, cut, rows)
+            pc = geo.perp_cos()
+            require(pc >= 1e-11, lambda: '%s refused with %r although the out-of-plane vector %r is perpendicular to both '
+                    'in-plane vectors (|cos| = %.3g)' % (what, msg, rows[geo.ci], pc))
+            labels.add('refusal_cut')
+            return None, what
+        raise
+
+
+def check_system(geo, system, shift, mults_lo_cnt, vac, what, motif, mult_each):
+    """box, pbc, atoms inside, same crystal.  returns (B, origin, pos, n', heights above the bottom face, width)"""
+    ci, i1, i2 = geo.ci, geo.inpl[0], geo.inpl[1]
+    B = np.asarray(system.box.vects, dtype=float)
+    o = np.asarray(system.box.origin, dtype=float)
+    pos = np.asarray(system.atoms.pos, dtype=float)
+    pbc = [bool(x) for x in system.pbc]
+    exp_pbc = [True, True, True]
+    exp_pbc[ci] = False
+    require(pbc == exp_pbc, lambda: '%s: pbc = %r, expected non-periodic only along the cut vector: %r' % (what, pbc, exp_pbc))
+    cnt = np.array([c for _, c in mults_lo_cnt], dtype=float)
+    lo = np.array([l for l, _ in mults_lo_cnt], dtype=float)
+    expB = geo.B0 * cnt[:, None]
+    expo = lo @ geo.B0
+    scale0 = float(np.abs(expB).max())
+    e_c = np.zeros(3)
+    e_c[ci] = 1.0
+    if vac:
+        # where the vacuum goes (below / above / split) is not fixed by the property: the origin may move down along the
+        # cut axis by anything in [0, vac]; that every atom is still inside across the cut is checked below
+        expB = expB.copy()
+        expB[ci] = expB[ci] + vac * e_c
+        down = float(np.dot(expo - o, e_c))
+        require(-1e-9 * (scale0 + vac) <= down <= vac * (1 + 1e-9) + 1e-9 * scale0,
+                lambda: '%s: box origin moved by %.9g along the cut axis for a vacuum width of %r' % (what, -down, vac))
+        expo = expo - down * e_c
+    scale = float(np.abs(expB).max())
+    tolB = 1e-8 * scale
+    require(np.abs(B - expB).max() <= tolB, lambda: '%s: box vectors\n%r\nexpected (multipliers x oriented cell%s)\n%r'
+            % (what, B, ', cut vector lengthened by the vacuum width' if vac else '', expB))
+    require(np.abs(o - expo).max() <= tolB, lambda: '%s: box origin %r, expected %r' % (what, o.tolist(), expo.tolist()))
+    sp = cm.rel_coords(pos, B, o)
+    if vac:
+        # lengthening a tilted cut vector along the normal shears the cell: in the periodic directions an unchanged
+        # position may now be an image outside [0,1) (harmless); across the cut every atom must be inside
+        sp = sp[:, ci]
+    require(sp.min() >= -1e-7 and sp.max() <= 1.0 + 1e-7, lambda: '%s: atoms outside the box: relative coordinates in [%.9g, %.9g]' % (what, sp.min(), sp.max()))
+    Bnov = geo.B0 * cnt[:, None]
+    onov = lo @ geo.B0
+    back = (pos - np.asarray(shift, dtype=float)) @ geo.T
+    rep = cm.compare_crystal(motif, back, mult=mult_each, newV=Bnov, new_origin=onov, new_pos=pos)
+    at = np.asarray(system.atoms.atype).astype(int)
+    idx = rep.match.index
+    ok = idx >= 0
+    if ok.any():
+        bad = ok & (at != np.asarray(motif.types)[np.where(ok, idx, 0)])
+        if bad.any():
+            rep.problems.append('%d atoms carry a type different from the unit-cell atom they map onto' % int(bad.sum()))
+    require(rep.ok, lambda: '%s: not the same crystal as the unit cell: %s' % (what, ' ; '.join(rep.problems)[:1200]))
+    n = np.cross(B[i1], B[i2])
+    n = n / np.linalg.norm(n)
+    if np.dot(n, B[ci]) < 0:
+        n = -n
+    d = (pos - onov) @ n
+    w = float(np.dot(n, Bnov[ci]))
+    return B, o, pos, n, d, w
+
+
+def oracle_surface(case):
+    import atomman as am
+    from atomman.defect import FreeSurface
+    u = case['ucell']
+    cell = u['cell']
+    hkl, cut = case['hkl'], case['cut']
+    setting = cell['setting']
+    h3 = plane3(hkl)
+    labels = {cell['family'], 'setting_' + setting, 'cut_' + cut, 'natoms%d' % len(u['atoms'])}
+    if setting != 'p':
+        labels.add('centred')
+    if len(hkl) == 4:
+        labels.add('hex4')
+    if cell.get('rot'):
+        labels.add('rigid_rot')
+    ucell, Vp, upos = build_ucell(am, u)
+    snap_pos, snap_v = np.array(ucell.atoms.pos), np.array(ucell.box.vects)
+    extra = {}
+    if case['shiftmode'] == 'init':
+        extra['shiftindex'] = 0
+    fs, what = construct(am, FreeSurface, case, u, ucell, labels, **extra)
+    if fs is None:
+        return labels
+    rows = rows_from_uvws(fs.uvws, setting, what)
+    geo = Geometry(u, hkl, cut, rows)
+    judge_rows(geo, what)
+    ci = geo.ci
+    require(int(fs.cutindex) == ci, lambda: '%s: cutindex %r' % (what, fs.cutindex))
+    Tf = np.asarray(fs.transform, dtype=float)
+    require(Tf.shape == (3, 3) and np.abs(Tf - geo.T).max() <= 1e-8,
+            lambda: '%s: transform\n%r\nis not the rotation taking the chosen vectors into the box orientation\n%r' % (what, Tf, geo.T))
+    rw = float(fs.rcellwidth)
+    require(abs(rw - geo.rw) <= 1e-9 * geo.L, lambda: '%s: rcellwidth %.12g, expected (h u + k v + l w)/|g| = %.12g' % (what, rw, geo.rw))
+    motif = cm.Motif(Vp, np.zeros(3), upos, 1e-6 * max(1.0, geo.L))
+    motif.types = [int(t) for t in u['types']]
+    # rcell itself
+    check_system_rcell = fs.rcell
+    require(check_system_rcell.natoms == geo.det * len(upos), lambda: '%s: rcell has %d atoms, expected det x natoms = %d'
+            % (what, check_system_rcell.natoms, geo.det * len(upos)))
+    # ---- offered shifts (arithmetic on all of them)
+    shifts = np.asarray(fs.shifts, dtype=float)
+    require(shifts.ndim == 2 and shifts.shape[1] == 3 and len(shifts) >= 1, lambda: '%s: shifts has shape %r' % (what, shifts.shape))
+    off = np.delete(shifts, ci, axis=1)
+    require(np.abs(off).max() == 0.0, lambda: '%s: a shift has components in the plane: %r' % (what, shifts.tolist()))
+    sv = shifts[:, ci]
+    require(np.all(sv >= -1e-9 * geo.L) and np.all(sv <= rw + 1e-9 * geo.L) and np.all(np.diff(sv) >= 0),
+            lambda: '%s: shifts not sorted within [0, rcellwidth]: %r' % (what, sv.tolist()))
+    tol_l = 1e-6 * max(1.0, geo.L)
+    if not geo.ambiguous:
+        k = geo.z[ci] // geo.gq
+        nexp = k * len(geo.layers)
+        require(len(sv) == nexp, lambda: '%s: %d shifts offered, the oriented cell holds %d lattice periods x %d atomic planes = %d gaps'
+                % (what, len(sv), k, len(geo.layers), nexp))
+        cuts = np.sort(np.mod(-sv, rw))
+        if len(cuts) > 1:
+            dd = np.diff(np.concatenate([cuts, [cuts[0] + rw]]))
+            require(dd.min() > tol_l, lambda: '%s: two offered shifts give the same cut plane: %r' % (what, sv.tolist()))
+        for i, s in enumerate(sv):
+            c0 = float(np.mod(-s, geo.period))
+            lo, hi = gap_at(geo.layers, geo.period, c0)
+            require(c0 - lo > tol_l and hi - c0 > tol_l,
+                    lambda: '%s: shift #%d = %.9g puts the cut at height %.9g (mod %.9g) ON an atomic plane (planes at %r)'
+                    % (what, i, s, c0, geo.period, geo.layers.tolist()))
+            require(abs((c0 - lo) - (hi - c0)) <= 2 * tol_l,
+                    lambda: '%s: shift #%d = %.9g puts the cut at height %.9g, not halfway between the neighbouring atomic planes %.9g and %.9g'
+                    % (what, i, s, c0, lo, hi))
+        labels.add('layers_checked')
+        if len(geo.layers) > 1:
+            labels.add('multilayer')
+    else:
+        labels.add('layer_ambiguous')
+    if len(sv) > 1:
+        labels.add('multishift')
+    # ---- built systems
+    sm = case['sizemults']
+    spans = [mult_span(m) for m in sm] if sm is not None else [(0, 1)] * 3
+    mcut = sm[ci] if sm is not None else 1
+    allowed = expected_cut_mult(mcut, case['minwidth'], case['even'], geo.rw)
+    nsh = len(sv)
+    if nsh <= 4:
+        which = list(range(nsh))
+    else:
+        a = case['shiftsel'] % nsh
+        which = sorted({0, nsh - 1, a, (a * 7 + 3) % nsh})
+    if case['shiftmode'] == 'init':
+        which = [None] + which[1:]
+    first = True
+    for si in which:
+        kw = {}
+        if sm is not None:
+            kw['sizemults'] = [mult_arg(m) for m in sm]
+        if case['minwidth'] is not None:
+            kw['minwidth'] = case['minwidth']
+        if case['even']:
+            kw['even'] = True
+        ii = 0 if si is None else si
+        mode = case['shiftmode'] if first else 'index'
+        if si is None:
+            pass
+        elif mode == 'vector':
+            kw['shift'] = [float(x) for x in shifts[ii]]
+        elif mode == 'scaled':
+            rb = np.asarray(fs.rcell.box.vects, dtype=float)
+            kw['shift'] = [float(x) for x in np.linalg.solve(rb.T, shifts[ii])]
+            kw['shiftscale'] = True
+        else:
+            kw['shiftindex'] = ii
+        w2 = '%s.surface(%s)' % (what, ', '.join('%s=%r' % kv for kv in sorted(kw.items())))
+        system = fs.surface(**dict(kw, sizemults=list(kw['sizemults'])) if 'sizemults' in kw else kw)
+        Bs = np.asarray(system.box.vects, dtype=float)
+        got = Bs[ci, ci] / geo.B0[ci, ci]
+        mfinal = int(round(got))
+        require(abs(got - mfinal) <= 1e-8 and mfinal in allowed,
+                lambda: '%s: %.9g oriented cells along the cut vector, expected %r (sizemult %r, minwidth %r, even %r, cell width %.9g)'
+                % (w2, got, sorted(allowed), mcut, case['minwidth'], case['even'], geo.rw))
+        sp2 = list(spans)
+        sp2[ci] = (-mfinal, mfinal) if int(mcut) < 0 else (0, mfinal)
+        nrep = geo.det * sp2[0][1] * sp2[1][1] * sp2[2][1]
+        require(system.natoms == nrep * len(upos), lambda: '%s: %d atoms, expected %d' % (w2, system.natoms, nrep * len(upos)))
+        sh_used = np.asarray(fs.shift, dtype=float)
+        require(np.abs(sh_used - shifts[ii]).max() <= 1e-9 * geo.L, lambda: '%s: shift attribute %r is not shifts[%d] = %r'
+                % (w2, sh_used.tolist(), ii, shifts[ii].tolist()))
+        B, o, pos, n, d, w = check_system(geo, system, sh_used, sp2, None, w2, motif, nrep)
+        if case['minwidth'] is not None:
+            require(w >= case['minwidth'] - 1e-9 * geo.L, lambda: '%s: slab width %.9g < minwidth %r' % (w2, w, case['minwidth']))
+        # termination: the cut (both faces) strictly between atomic planes, halfway
+        dmin, dmax = float(d.min()), float(w - d.max())
+        require(dmin > tol_l and dmax > tol_l, lambda: '%s: an atomic plane lies on the cut (nearest atoms %.3g above the bottom face, %.3g below the top face)'
+                % (w2, dmin, dmax))
+        if not geo.ambiguous:
+            require(abs(dmin - dmax) <= 2 * tol_l, lambda: '%s: the cut is not halfway between atomic planes: nearest plane above the '
+                    'cut at %.9g, below at %.9g' % (w2, dmin, dmax))
+        area = float(np.linalg.norm(np.cross(B[geo.inpl[0]], B[geo.inpl[1]])))
+        sa = float(fs.surfacearea)
+        require(abs(sa - area) <= 1e-9 * area, lambda: '%s: surfacearea %.12g, in-plane cell area %.12g' % (w2, sa, area))
+        if case['vacuum'] is not None and first:
+            vac = float(case['vacuum'])
+            kwv = dict(kw, vacuumwidth=vac)
+            if 'sizemults' in kwv:
+                kwv['sizemults'] = list(kw['sizemults'])
+            sysv = fs.surface(**kwv)
+            w3 = w2[:-1] + ', vacuumwidth=%r)' % vac
+            require(sysv.natoms == system.natoms, lambda: '%s: atom count changed' % w3)
+            pv = np.asarray(sysv.atoms.pos, dtype=float)
+            require(np.abs(pv - pos).max() <= 1e-10 * geo.L, lambda: '%s: atom positions moved by up to %.3g when vacuum was added'
+                    % (w3, np.abs(pv - pos).max()))
+            Bv = np.asarray(sysv.box.vects, dtype=float)
+            ov = np.asarray(sysv.box.origin, dtype=float)
+            require(np.abs(Bv - B - vac * np.outer(np.eye(3)[ci], n)).max() <= 1e-9 * (geo.L + vac),
+                    lambda: '%s: box\n%r\nexpected the cut vector lengthened by %r along the plane normal:\n%r' % (w3, Bv, vac, B))
+            require([bool(x) for x in sysv.pbc] == [bool(x) for x in system.pbc], lambda: '%s: pbc %r' % (w3, sysv.pbc))
+            check_system(geo, sysv, sh_used, sp2, vac, w3, motif, nrep)
+            labels.add('vacuum' if vac > 0 else 'vacuum0')
+        first = False
+    require(np.array_equal(np.asarray(ucell.atoms.pos), snap_pos) and np.array_equal(np.asarray(ucell.box.vects), snap_v),
+            lambda: '%s: the unit cell was modified' % what)
+    labels.add('shiftmode_' + case['shiftmode'])
+    if sm is not None:
+        if any(isinstance(m, list) for m in sm):
+            labels.add('tuplemult')
+        if any((not isinstance(m, list)) and m < 0 for m in sm):
+            labels.add('negmult')
+    if case['minwidth'] is not None:
+        labels.add('minwidth')
+        if max(allowed) > abs(int(mcut)) + (1 if case['even'] else 0):
+            labels.add('minwidth_decides')
+    if case['even']:
+        labels.add('even')
+    if is_nt_plane(cell, h3):
+        labels.add('nt')
+    labels.add('built')
+    return labels
+
+
+
+# ----------------------------------------------------------------------------- fault
+
+AIDX = {'a': (1, 2), 'b': (2, 0), 'c': (0, 1)}
+_frac15 = st.integers(-1500, 1500).map(lambda k: k / 1000.0)
+_gapfrac = st.sampled_from([0.5, 0.5, 0.25, 0.8, 0.1, 0.37])
+_small = st.integers(-2, 2)
+_cutmult_f = st.sampled_from([1, 2, 2, 3, 3, 4, 5, -2, -3])
+_combo = st.sampled_from([[[1, 0], [0, 1]], [[1, 1], [0, 1]], [[1, 0], [1, 1]], [[0, 1], [-1, 0]], [[2, 0], [0, 1]],
+                          [[1, -1], [1, 1]], [[-1, 0], [0, -1]], [[1, 2], [0, 1]]])
+_outs = st.sampled_from([0.5, -0.3, 1.25, 0.1])
+
+
+@st.composite
+def fault_cases(draw):
+    u = draw(ucells())
+    cell = u['cell']
+    hkl, cut = draw(plane_cut(cell))
+    ci = CUTIDX[cut]
+    mults = [draw(_mult_in) for _ in range(3)]
+    mults[ci] = draw(_cutmult_f)
+    kind = draw(st.sampled_from(['a12', 'a12', 'a12', 'lattice', 'lattice', 'faultshift', 'a12out', 'default']))
+    sh = {'kind': kind}
+    if kind in ('a12', 'a12out'):
+        which = draw(st.sampled_from(['both', 'both', 'a1', 'a2']))
+        sh['a1'] = draw(_frac15) if which != 'a2' else None
+        sh['a2'] = draw(_frac15) if which != 'a1' else None
+        if kind == 'a12out':
+            sh['out'] = draw(_outs)
+    elif kind == 'lattice':
+        sh['a1'] = draw(_small)
+        sh['a2'] = draw(_small)
+    elif kind == 'faultshift':
+        sh['vec'] = [draw(_frac15) * 2.0 for _ in range(3)]
+    custom = None
+    if draw(_int10) < 3:
+        custom = {'combo': draw(_combo), 'where': draw(st.sampled_from(['init', 'fault', 'fault'])),
+                  'bad': draw(_int10) < 2}
+    fmode = draw(st.sampled_from(['default', 'default', 'cart', 'cart', 'rel', 'rel']))
+    even = draw(_int10) < 3
+    minwidth = draw(_width) if draw(_int10) < 3 else None
+    if fmode == 'default' and draw(_int10) < 7:
+        minwidth = None
+        # odd number of cells across the cut and the default position 0.5: an atomic plane can sit exactly on the fault plane
+        mults[ci] = draw(st.sampled_from([1, 3, 5, 3]))
+        even = False
+    return {'ucell': u, 'hkl': hkl, 'cut': cut,
+            'sizemults': mults if draw(_int10) < 9 else None,
+            'minwidth': minwidth,
+            'even': even,
+            'vacuum': draw(_vac) if draw(_int10) < 2 else None,
+            'shiftsel': draw(st.integers(0, 1000)),
+            'fpos': {'mode': fmode,
+                     'where': draw(st.sampled_from(['surface', 'fault'])),
+                     'gapsel': draw(st.integers(0, 1000)), 'frac': draw(_gapfrac)},
+            'shift': sh, 'custom': custom,
+            'minimum_r': draw(st.sampled_from([1.5, 2.5, 0.8])) if draw(_int10) < 1 else None,
+            'itermap': [draw(st.integers(1, 3)), draw(st.integers(1, 3))] if draw(_int10) < 2 else None,
+            'outside': draw(_int10) < 1}
+
+
+def cluster_layers(x, tol):
+    xs = np.sort(np.asarray(x, dtype=float))
+    out = [xs[0]]
+    for v in xs[1:]:
+        if v - out[-1] > tol:
+            out.append(v)
+    return np.array(out)
+
+
+def displacement_check(base, new, side, expected, B, ci, tol, what, common_delta=False):
+    """side: +1 above, 0 below/on-plane (must stay), -1 exempt.  returns delta (extra common out-of-plane push)"""
+    resid = new - base
+    resid[side == 1] -= expected
+    e = np.zeros(3)
+    e[ci] = 1.0
+    delta = 0.0
+    judged = side >= 0
+    if common_delta and (side == 1).any():
+        rel0 = np.linalg.solve(B.T, resid[side == 1].T).T
+        n0 = np.rint(rel0)
+        n0[:, ci] = 0
+        r0 = resid[side == 1] - n0 @ B
+        delta = float(np.median(r0[:, ci]))
+        resid[side == 1] -= delta * e
+    rel = np.linalg.solve(B.T, resid.T).T
+    n = np.rint(rel)
+    n[:, ci] = 0
+    r = resid - n @ B
+    err = np.linalg.norm(r, axis=1)
+    err[~judged] = 0.0
+    k = int(np.argmax(err))
+    require(err[k] <= tol, lambda: '%s: atom #%d (%s the fault plane, at %r) moved by %r, expected %r modulo the in-plane cell vectors (residual %.3g)'
+            % (what, k, 'above' if side[k] == 1 else 'not above', base[k].tolist(), (new[k] - base[k]).tolist(),
+               (expected + delta * e).tolist() if side[k] == 1 else [0.0, 0.0, 0.0], err[k]))
+    return delta
+
+
+def oracle_fault(case):
+    import atomman as am
+    from atomman.defect import StackingFault
+    u = case['ucell']
+    cell = u['cell']
+    hkl, cut = case['hkl'], case['cut']
+    setting = cell['setting']
+    h3 = plane3(hkl)
+    labels = {cell['family'], 'setting_' + setting, 'cut_' + cut}
+    if setting != 'p':
+        labels.add('centred')
+    if len(hkl) == 4:
+        labels.add('hex4')
+    ucell, Vp, upos = build_ucell(am, u)
+    sf, what = construct(am, StackingFault, case, u, ucell, labels)
+    if sf is None:
+        return labels
+    rows = rows_from_uvws(sf.uvws, setting, what)
+    geo = Geometry(u, hkl, cut, rows)
+    judge_rows(geo, what)
+    ci = geo.ci
+    i1, i2 = AIDX[cut]
+    uv = np.asarray(sf.uvws, dtype=float)
+    custom = case['custom']
+    A1, A2 = geo.B0[i1].copy(), geo.B0[i2].copy()
+    cust_kw = {}
+    if custom is not None:
+        (p, q), (r, t) = custom['combo']
+        c1, c2 = p * uv[i1] + q * uv[i2], r * uv[i1] + t * uv[i2]
+        if custom['bad']:
+            c1 = c1 + uv[ci]
+        cust_kw = {'a1vect_uvw': [float(x) for x in c1], 'a2vect_uvw': [float(x) for x in c2]}
+        A1, A2 = p * geo.B0[i1] + q * geo.B0[i2], r * geo.B0[i1] + t * geo.B0[i2]
+        labels.add('custom_avect')
+        if custom['where'] == 'init':
+            try:
+                sf = StackingFault(hkl, ucell, cutboxvector=cut, conventional_setting=setting, **cust_kw)
+            except ValueError as e:
+                require(custom['bad'] and 'not in fault plane' in str(e), lambda: '%s with %r raised ValueError(%s)' % (what, cust_kw, e))
+                labels.update({'refusal_avect', 'nt'} if is_nt_plane(cell, h3) else {'refusal_avect'})
+                return labels
+            require(not custom['bad'], lambda: '%s accepted a shift vector %r that leaves the plane' % (what, cust_kw['a1vect_uvw']))
+            cust_kw = {}
+    # ---- base system
+    sm = case['sizemults']
+    nsh = len(sf.shifts)
+    kw = {'shiftindex': case['shiftsel'] % nsh}
+    if sm is not None:
+        kw['sizemults'] = [mult_arg(m) for m in sm]
+    if case['minwidth'] is not None:
+        kw['minwidth'] = case['minwidth']
+    if case['even']:
+        kw['even'] = True
+    if case['vacuum'] is not None:
+        kw['vacuumwidth'] = float(case['vacuum'])
+    base_sys = sf.surface(**kw)
+    w0 = '%s.surface(%s)' % (what, ', '.join('%s=%r' % kv for kv in sorted(kw.items())))
+    B = np.array(base_sys.box.vects, dtype=float)
+    o = np.array(base_sys.box.origin, dtype=float)
+    base = np.array(base_sys.atoms.pos, dtype=float)
+    btype = np.array(base_sys.atoms.atype).astype(int)
+    exp_pbc = [True, True, True]
+    exp_pbc[ci] = False
+    require([bool(x) for x in base_sys.pbc] == exp_pbc, lambda: '%s: pbc %r' % (w0, base_sys.pbc))
+    for i in geo.inpl:
+        cnt = mult_span(sm[i])[1] if sm is not None else 1
+        require(np.abs(B[i] - cnt * geo.B0[i]).max() <= 1e-8 * geo.L * cnt, lambda: '%s: in-plane box vector %d is %r, expected %d x %r'
+                % (w0, i, B[i].tolist(), cnt, geo.B0[i].tolist()))
+    width = float(B[ci, ci])
+    x = base[:, ci]
+    Lx = cluster_layers(x, 1e-6 * max(1.0, geo.L))
+    fp = case['fpos']
+    mode = fp['mode']
+    fkw = {}
+    tol = 1e-8 * max(1.0, geo.L, width)
+    if case['outside']:
+        bad = {'faultpos_rel': 1.0 + fp['frac']} if fp['gapsel'] % 2 else {'faultpos_cart': float(o[ci] - fp['frac'] - 0.01)}
+        try:
+            sf.fault(a1=0.5, **bad)
+        except ValueError as e:
+            require('faultpos is outside system' in str(e), lambda: '%s.fault(%r) raised ValueError(%s)' % (w0, bad, e))
+            labels.add('refusal_faultpos')
+        else:
+            raise Violation('%s.fault(a1=0.5, %r): a fault position outside the system was accepted' % (w0, bad))
+    if mode == 'default':
+        fpv = float(o[ci] + 0.5 * width)
+    else:
+        if len(Lx) >= 2:
+            gi = fp['gapsel'] % (len(Lx) - 1)
+            fpv = float(Lx[gi] + fp['frac'] * (Lx[gi + 1] - Lx[gi]))
+        else:
+            labels.add('onelayer')
+            fpv = float(Lx[0] + (0.3 if fp['gapsel'] % 2 else -0.3) * min(Lx[0] - o[ci], o[ci] + width - Lx[0]))
+        if mode == 'cart':
+            fkw['faultpos_cart'] = fpv
+        else:
+            fkw['faultpos_rel'] = float((fpv - o[ci]) / width)
+        if fp['where'] == 'surface':
+            base_sys = sf.surface(**dict(kw, sizemults=[mult_arg(m) for m in sm], **fkw) if sm is not None else dict(kw, **fkw))
+            require(np.array_equal(np.asarray(base_sys.atoms.pos), base), lambda: '%s: rebuilding the same surface with %r gave other positions' % (w0, fkw))
+            fkw = {}
+    # ---- the fault
+    sh = case['shift']
+    e = np.zeros(3)
+    e[ci] = 1.0
+    skw = {}
+    if sh['kind'] in ('a12', 'a12out', 'lattice'):
+        if sh.get('a1') is not None:
+            skw['a1'] = sh['a1']
+        if sh.get('a2') is not None:
+            skw['a2'] = sh['a2']
+        if 'out' in sh:
+            skw['outofplane'] = sh['out']
+        expected = (sh.get('a1') or 0.0) * A1 + (sh.get('a2') or 0.0) * A2 + sh.get('out', 0.0) * e
+    elif sh['kind'] == 'faultshift':
+        skw['faultshift'] = np.array(sh['vec'], dtype=float)
+        expected = np.array(sh['vec'], dtype=float)
+    else:
+        expected = np.zeros(3)
+    if case['minimum_r'] is not None:
+        skw['minimum_r'] = case['minimum_r']
+    allkw = dict(skw, **fkw, **cust_kw)
+    w1 = '%s.fault(%s)' % (w0, ', '.join('%s=%r' % (k_, v.tolist() if isinstance(v, np.ndarray) else v) for k_, v in sorted(allkw.items())))
+    try:
+        fsys = sf.fault(**allkw)
+    except ValueError as ex:
+        if custom is not None and custom['bad'] and 'not in fault plane' in str(ex):
+            labels.add('refusal_avect')
+            return labels
+        raise
+    require(not (custom is not None and custom['bad'] and cust_kw), lambda: '%s accepted a shift vector that leaves the plane' % w1)
+    fpc = float(sf.faultpos_cart)
+    require(abs(fpc - fpv) <= 1e-9 * max(1.0, abs(fpv), width), lambda: '%s: faultpos_cart %.12g, requested position %.12g' % (w1, fpc, fpv))
+    fpr = float(sf.faultpos_rel)
+    require(abs(fpr - (fpv - o[ci]) / width) <= 1e-9, lambda: '%s: faultpos_rel %.12g for position %.12g in [%.12g, %.12g]' % (w1, fpr, fpv, o[ci], o[ci] + width))
+    band = 1e-9 * max(1.0, width)
+    side = np.where(x > fpc + band, 1, np.where(x < fpc - band, 0, -1))
+    onp = (side == -1) & (x == fpc)
+    side[onp] = 0
+    if onp.any():
+        labels.add('onplane_exact')
+    if (side == -1).any():
+        labels.add('band_exempt')
+    mask = np.asarray(sf.abovefault)
+    require(mask.shape == (len(x),) and np.array_equal(mask[side >= 0], side[side >= 0] == 1),
+            lambda: '%s: abovefault does not mark exactly the atoms above %.9g' % (w1, fpc))
+    new = np.array(fsys.atoms.pos, dtype=float)
+    require(new.shape == base.shape and np.array_equal(np.asarray(fsys.atoms.atype).astype(int), btype),
+            lambda: '%s: atom count / types changed' % w1)
+    require([bool(v) for v in fsys.pbc] == exp_pbc, lambda: '%s: pbc %r' % (w1, fsys.pbc))
+    Bf = np.asarray(fsys.box.vects, dtype=float)
+    for i in geo.inpl:
+        require(np.abs(Bf[i] - B[i]).max() <= 1e-9 * geo.L * max(1.0, np.abs(B[i]).max() / geo.L), lambda: '%s: in-plane box vector %d changed: %r -> %r' % (w1, i, B[i].tolist(), Bf[i].tolist()))
+    require(np.array_equal(np.asarray(sf.system.atoms.pos), base), lambda: '%s modified the stored surface system' % w1)
+    delta = displacement_check(base, new, side, expected, B, ci, tol, w1, common_delta=case['minimum_r'] is not None)
+    require(delta >= -tol, lambda: '%s: minimum_r pulled the upper part towards the plane (extra out-of-plane shift %.3g)' % (w1, delta))
+    if delta > tol:
+        labels.add('minimum_r_pushed')
+    nab, nbe = int((side == 1).sum()), int((side == 0).sum())
+    if nab and nbe:
+        labels.add('both_sides')
+    if sh['kind'] == 'lattice' and case['minimum_r'] is None:
+        # full in-plane lattice vector: the perfect (unfaulted) slab is restored as a set of atoms
+        mt = cm.Motif(B, o, base, 1e-6 * max(1.0, geo.L))
+        m = mt.match(new)
+        cntm = mt.multiplicity(m.index)
+        okm = (len(m.unmatched) == 0 and np.all(cntm == 1) and np.all(m.shift[:, ci] == 0)
+               and np.array_equal(btype[m.index], btype))
+        require(okm, lambda: '%s: a shift by the full lattice vector %r does not restore the unfaulted slab (%d atoms off, '
+                'multiplicities %r..%r)' % (w1, expected.tolist(), len(m.unmatched), cntm.min(), cntm.max()))
+        labels.add('lattice_restored')
+        if (sh['a1'] or sh['a2']) and nab and nbe:
+            labels.add('lattice_nonzero')
+    if np.linalg.norm(expected) > 1e-6 and nab and nbe and np.abs(np.cross(A1, A2)).max() > 0:
+        labels.add('shifted')
+        if sh.get('a1') and not sh.get('a2'):
+            labels.add('a1_only')
+    # ---- iterfaultmap
+    if case['itermap'] is not None and not (custom is not None and custom['bad']):
+        n1, n2 = case['itermap']
+        out = list(sf.iterfaultmap(num_a1=n1, num_a2=n2))
+        require(len(out) == n1 * n2, lambda: '%s.iterfaultmap(%d, %d) yielded %d systems' % (w0, n1, n2, len(out)))
+        seen = set()
+        for a1, a2, sy in out:
+            k1, k2 = a1 * n1, a2 * n2
+            require(abs(k1 - round(k1)) < 1e-9 and abs(k2 - round(k2)) < 1e-9 and 0 <= round(k1) < n1 and 0 <= round(k2) < n2,
+                    lambda: '%s.iterfaultmap(%d, %d) yielded a1, a2 = %r, %r, not on the regular grid' % (w0, n1, n2, a1, a2))
+            seen.add((int(round(k1)), int(round(k2))))
+            displacement_check(base, np.array(sy.atoms.pos, dtype=float), side, a1 * A1 + a2 * A2, B, ci, tol,
+                               '%s.iterfaultmap(%d, %d) at a1=%r a2=%r' % (w0, n1, n2, a1, a2))
+        require(len(seen) == n1 * n2, lambda: '%s.iterfaultmap(%d, %d): grid points repeated' % (w0, n1, n2))
+        labels.add('itermap')
+    labels.add('fpos_' + mode)
+    labels.add('kind_' + sh['kind'])
+    if is_nt_plane(cell, h3):
+        labels.add('nt')
+    labels.add('built')
+    return labels
+
+
 CLAUSES = [
-    Clause('basis', oracle_basis, enumerate=enum_basis, max_share={'refusal': 0.05},
-           min_share={'nt': 0.5},
+    Clause('basis', oracle_basis, enumerate=enum_basis, max_share={'refusal': 0.08},
+           min_share={'nt': 0.5, 'centred': 0.08, 'hex_4': 0.05},
            desc='free_surface_basis on every plane up to the index bound x cutboxvector in a generic cell per family, centred '
                 'settings, Miller-Bravais: integer, right-handed, zone law exact, out-of-plane row on the normal side, normal = +g'),
-    Clause('basis_random', oracle_basis_random, basis_random_cases, quick=640, thorough=16000,
-           min_share={'nt': 0.3}, max_share={'refusal': 0.08},
+    Clause('basis_random', oracle_basis_random, basis_random_cases, quick=640, thorough=12000,
+           min_share={'nt': 0.35, 'centred': 0.1, 'rigid_rot': 0.15}, max_share={'refusal': 0.15},
            desc='the same oracle on random cells of every family / centred setting (30 % rigidly rotated), planes up to index 4'),
+    Clause('surface', oracle_surface, surface_cases, quick=600, thorough=10000,
+           min_share={'nt': 0.2, 'built': 0.4, 'multilayer': 0.2, 'multishift': 0.3, 'vacuum': 0.12, 'minwidth_decides': 0.03,
+                      'negmult': 0.12, 'tuplemult': 0.12, 'centred': 0.12, 'hex4': 0.02, 'cut_a': 0.07, 'cut_b': 0.07},
+           max_share={'refusal_search': 0.25, 'refusal_cut': 0.4, 'layer_ambiguous': 0.05, 'c04_filtering_skip': 0.02},
+           desc='FreeSurface: chosen vectors, transform, rcellwidth; all offered shifts halfway between atomic planes, one per gap; built '
+                'systems: pbc, box = multipliers x oriented cell, same crystal by map-back with multiplicity, cut between planes, '
+                'minwidth/even/sizemults, vacuum lengthens the cut vector only, surfacearea'),
+    Clause('fault', oracle_fault, fault_cases, quick=600, thorough=10000,
+           min_share={'nt': 0.2, 'built': 0.4, 'shifted': 0.3, 'both_sides': 0.35, 'lattice_nonzero': 0.05, 'custom_avect': 0.1,
+                      'onplane_exact': 0.01, 'itermap': 0.07, 'refusal_avect': 0.025, 'kind_faultshift': 0.03, 'fpos_rel': 0.12,
+                      'a1_only': 0.06, 'centred': 0.12},
+           max_share={'refusal_search': 0.25, 'refusal_cut': 0.4, 'c04_filtering_skip': 0.02},
+           desc='StackingFault.fault: atoms not above the plane stay, atoms above move by a1*a1vect + a2*a2vect + outofplane (or the '
+                'given faultshift) modulo the in-plane cell vectors; full lattice vectors restore the slab; fault positions between '
+                'layers (cart/rel/default, at surface() or fault()); user shift vectors; refusals; iterfaultmap grid'),
 ]
